@@ -113,6 +113,17 @@ def run_values(acc: Acc, maxargs: int):
                         if ok and not same(unwrap(got, kind), expect(lambda xs: getattr(np, op)(np.stack(xs), axis=0), base[:k], kind)):
                             acc.bad("value_mismatch", f"{op} over several arguments differs from NumPy on {kind}", f"{rp}", rp)
                         acc.nontrivial.add((op, kind, shape, dtype, k))
+                        # several arguments together with an axis / dim keyword (fluent hands the caller's backend_kwargs to
+                        # every node of a batched reduction): the arguments are still reduced across the new leading axis
+                        for ax in ([None, 0, -1] + ([1] if len(shape) >= 1 else [])) if k <= 3 else ():
+                            kw = {"axis": ax} if kind == "numpy" else ({"dim": dims[0]} if dims and ax == 0 else None)
+                            if kw is None:
+                                continue
+                            rp2 = dict(rp, axis=ax, with_axis_keyword=True)
+                            acc.n += 1
+                            ok, got = call(acc, rp2, f, *[wrap(a, kind) for a in base[:k]], **kw)
+                            if ok and not same(unwrap(got, kind), expect(lambda xs: getattr(np, op)(np.stack(xs), axis=0), base[:k], kind)):
+                                acc.bad("value_mismatch", f"{op} over several arguments with an axis/dim keyword is not the reduction across the arguments on {kind}", f"{rp2}", rp2)
                     # one argument: reduction along an axis / dim
                     for ax in [None] + list(range(len(shape))) + ([-1] if kind == "numpy" else []):
                         rp = {"family": "values", "op": op, "kind": kind, "shape": list(shape), "dtype": dtype, "nargs": 1, "axis": ax}
